@@ -46,14 +46,24 @@ Proof. exact go_contains_any_chunked_exact. Qed.
 Print Assumptions C17_contains_exact_chunked_any_factor.
 
 (* The model of Model/Search.v (used by C17_contains_exact, the extracted runner and the
-   correspondence check) is the instance "every Read fills its buffer" = the empty oracle ... *)
+   correspondence check) is the instance "every Read fills its buffer" of the chunked model: the
+   empty oracle, or any oracle whose entries are (c, false) with c >= bufflen.  Proved by a
+   round-by-round simulation for EVERY window factor and half divisor with 1 <= hdiv <= factor
+   (halflen >= the longest needle), so it does not depend on the exactness of either model. *)
 Theorem C17_full_read_is_instance : forall content needles,
   reader_contains_any_chunked content [] needles = Some (reader_contains_any content needles).
 Proof. exact reader_contains_any_is_fill_instance. Qed.
 Print Assumptions C17_full_read_is_instance.
 
-(* ... and every other oracle computes the same, round by round (a simulation, independent of the
-   exactness proof): readerContainsAny only ever calls io.ReadAtLeast with len(buf) = min. *)
+Theorem C17_full_read_is_instance_any_factor : forall factor hdiv content calls needles,
+  1 <= hdiv -> hdiv <= factor ->
+  Forall (fills (factor * largest needles)) calls ->
+  go_contains_any_chunked factor hdiv content calls needles = Some (go_contains_any factor hdiv content needles).
+Proof. exact chunked_fill_is_full. Qed.
+Print Assumptions C17_full_read_is_instance_any_factor.
+
+(* ... and with the source's constants (even factor, halflen = bufflen/2) every other oracle computes
+   the same, round by round: readerContainsAny only ever calls io.ReadAtLeast with len(buf) = min. *)
 Theorem C17_chunking_irrelevant : forall factor content calls needles,
   2 <= factor -> Nat.even factor = true ->
   go_contains_any_chunked factor 2 content calls needles = Some (go_contains_any factor 2 content needles).
@@ -71,7 +81,7 @@ Theorem C17_read_at_least_spec : forall fuel rd buf n m,
     n + length data <= length buf /\
     (eof = false -> m <= n + length data) /\
     (eof = true -> r_rest rd' = []) /\
-    length (r_calls rd') <= length (r_calls rd).
+    (exists used, r_calls rd = used ++ r_calls rd').
 Proof. exact ral_loop_spec. Qed.
 Print Assumptions C17_read_at_least_spec.
 
